@@ -85,6 +85,8 @@ static int ver_ref(const ver_t *a, const ver_t *b)
 
 static void exec_c17(const plan_t *p)
 {
+    static signed char first_answer[PLAN_MAXOPS];
+    memset(first_answer, 99, sizeof(first_answer));
     for (int i = 0; i < p->nops; i++) {
         op_t *o = (op_t *)&p->ops[i];
         char *a, *b;
@@ -101,6 +103,7 @@ static void exec_c17(const plan_t *p)
         r4 = sgn(spiftool_version_compare((spif_charptr_t)a, (spif_charptr_t)a));
         r5 = sgn(spiftool_version_compare((spif_charptr_t)a, (spif_charptr_t)b));          /* after a different call history */
         tr_printf("cmp %.40s|%.40s -> %d %d %d %d", a, b, r1, r2, r3, r4);
+        if (i < PLAN_MAXOPS) first_answer[i] = (signed char)r1;
         if (r1 == 99 || r3 == 99) sim_fail("MISMATCH(range)", "result is neither LESS, EQUAL nor GREATER");
         if (r1 != r2) sim_fail("MISMATCH(stack-dependence)", "same arguments, different stack contents: %d then %d", r1, r2);
         if (r1 != r5) sim_fail("MISMATCH(history-dependence)", "same arguments, different preceding calls: %d then %d", r1, r5);
@@ -121,6 +124,20 @@ static void exec_c17(const plan_t *p)
         if (o->slen > 127 || o->tlen > 127) probe_hit("run_longer_than_127");
         if (plan_get(p, "sweep", 0)) probe_hit("exhaustive_short_pair");
         sim_free(a); sim_free(b);
+    }
+    /* "the same answer every time for the same arguments regardless of prior calls": every comparison of the run once more, in
+       reverse order -- each now has the whole run, and its own successors, for a history */
+    for (int i = p->nops - 1; i >= 0; i--) {
+        op_t *o = (op_t *)&p->ops[i];
+        char *a, *b;
+        int r;
+        if (strcmp(o->kind, "cmp") || !o->has_s || !o->has_t || i >= PLAN_MAXOPS || first_answer[i] == 99) continue;
+        R.cur_op = o; R.cur_op_index = i; R.op_steps = 0;
+        a = blockdup(o->s, o->slen); b = blockdup(o->t, o->tlen);
+        r = sgn(spiftool_version_compare((spif_charptr_t)a, (spif_charptr_t)b));
+        if (r != first_answer[i]) sim_fail("MISMATCH(history-dependence)", "compare(\"%.40s\",\"%.40s\") said %d the first time and %d when asked again after the other comparisons of the run", a, b, first_answer[i], r);
+        sim_free(a); sim_free(b);
+        probe_hit("asked_again_at_the_end");
     }
     R.cur_op = NULL;
 }
@@ -191,6 +208,31 @@ static void gen_c17(plan_t *p, rng_t *r)
         size_t na, nb;
         int mode = (int)rng_below(r, 11);
         op_t *o;
+        if (i > 0 && rng_chance(r, 1, 4)) {
+            /* related to the call before: one of its strings again with its word cut down, grown, or replaced by a real pre-release
+               word on either side -- whatever the previous call left behind now meets something that looks like it */
+            static char pa[8000], pb[8000];
+            size_t pn, w0, w1;
+            memcpy(pa, rng_chance(r, 1, 2) ? a : b, sizeof(pa)); pa[sizeof(pa) - 1] = 0; pn = strlen(pa);
+            for (w0 = 0; w0 < pn && !isalpha((unsigned char)pa[w0]); w0++);
+            for (w1 = w0; w1 < pn && isalpha((unsigned char)pa[w1]); w1++);
+            memcpy(pb, pa, pn + 1);
+            if (w1 > w0 && pn < 3000) {
+                static const char *pre[] = { "snap", "pre", "alpha", "beta", "rc" };
+                int k = (int)rng_below(r, 4);
+                if (k == 0 && w1 > w0 + 1) { memmove(pa + w0 + (w1 - w0) / 2, pa + w1, pn - w1 + 1); }                   /* first half of the word against the whole */
+                else if (k == 1) { memmove(pa + w1 + 3, pa + w1, pn - w1 + 1); memcpy(pa + w1, "bet", 3); }                /* the word grown by three letters against the word */
+                else {
+                    /* two different pre-release words in its place */
+                    int x = (int)rng_below(r, 5), y = (x + 1 + (int)rng_below(r, 4)) % 5;
+                    size_t xl = strlen(pre[x]), yl = strlen(pre[y]);
+                    memmove(pa + w0 + xl, pa + w1, pn - w1 + 1); memcpy(pa + w0, pre[x], xl);
+                    memmove(pb + w0 + yl, pb + w1, pn - w1 + 1); memcpy(pb + w0, pre[y], yl);
+                }
+            } else if (pn + 8 < sizeof(pb)) snprintf(pb + pn, sizeof(pb) - pn, "%s", rng_chance(r, 1, 2) ? "beta1" : ".1");
+            if (rng_chance(r, 1, 2)) { na = strlen(pa); memcpy(a, pa, na + 1); nb = strlen(pb); memcpy(b, pb, nb + 1); }
+            else { na = strlen(pb); memcpy(a, pb, na + 1); nb = strlen(pa); memcpy(b, pa, nb + 1); }
+        } else
         if (mode == 10) {
             /* one string is the other plus punctuation, a word and a number, each optional */
             static const char *ws[] = { "pre", "snap", "alpha", "beta", "rc", "prefix", "x", "final", "" };
@@ -408,10 +450,8 @@ static void exec_asm(const op_t *o, long ns)
     sim_free(canon);
 }
 
-static void exec_c14(const plan_t *p)
+static void c14_set_ns(long ns)
 {
-    /* name-service table for this run */
-    long ns = plan_get(p, "ns", 0);
     if (ns & 1) simns_add_proto("tcp", 6);
     if (ns & 2) simns_add_proto("udp", 17);
     if (ns & 4) simns_add_serv("http", "tcp", 80);
@@ -420,6 +460,13 @@ static void exec_c14(const plan_t *p)
     if (ns & 32) simns_add_proto("ip", 0);
     if (ns & 64) simns_add_serv("odd", "sctp", 99);          /* service whose protocol is not in the table */
     if (ns & 128) { simns_add_serv("amanda", "udp", 10080); simns_add_serv("top", "tcp", 65535); }      /* the widest port numbers there are */
+}
+static void exec_c14(const plan_t *p)
+{
+    /* name-service table for this run (an "ns" operation replaces it in mid-run: the databases behind getprotobyname() and
+       getservbyname() are files that change, and a parse must ask them, not its memory of an earlier answer) */
+    long ns = plan_get(p, "ns", 0);
+    c14_set_ns(ns);
     for (int i = 0; i < p->nops; i++) {
         op_t *o = (op_t *)&p->ops[i];
         char *txt, why[200];
@@ -428,6 +475,7 @@ static void exec_c14(const plan_t *p)
         int wellformed, expect_port = 0;
         char portbuf[16] = "";
         R.cur_op = o; R.cur_op_index = i; R.op_steps = 0;
+        if (!strcmp(o->kind, "ns")) { ns = o->a[0] & 255; simns_reset(); c14_set_ns(ns); probe_hit("name_service_changed"); continue; }
         if (!strcmp(o->kind, "asm") && o->has_s) { exec_asm(o, ns); continue; }
         if (strcmp(o->kind, "url") || !o->has_s) continue;
         txt = blockdup(o->s, o->slen);
@@ -514,6 +562,7 @@ static void gen_c14(plan_t *p, rng_t *r)
         size_t n = 0;
         int wf = rng_chance(r, 4, 5);
         op_t *o;
+        if (i && rng_chance(r, 1, 10)) plan_op(p, 0, "ns", 1, (long)rng_below(r, 256));      /* the name service changes its mind */
         if (wf) {
             int hasproto = rng_chance(r, 3, 4), hashost = rng_chance(r, 5, 6), hasuser, haspw, hasport, haspath, hasquery;
             if (hasproto) hashost = 1; else if (rng_chance(r, 1, 3)) hashost = 0;      /* accepted shape: host is optional only for bare paths */
